@@ -80,17 +80,21 @@ aligned_nodrop!(P1 = 1, P4 = 4, P64 = 64);
 
 pub struct Root<'gc> {
     pub keep: Vec<Gc<'gc, ()>>,
+    pub weak: Vec<gc_arena::GcWeak<'gc, ()>>,
 }
 unsafe impl<'gc> Collect<'gc> for Root<'gc> {
     fn trace<T: Trace<'gc>>(&self, cc: &mut T) {
         for g in &self.keep {
             cc.trace_gc(*g);
         }
+        for g in &self.weak {
+            cc.trace_gc_weak(*g);
+        }
     }
 }
 pub type A = Arena<Rootable![Root<'_>]>;
 pub fn new_arena() -> A {
-    talloc::subject(|| Arena::new(|_| Root { keep: vec![] }))
+    talloc::subject(|| Arena::new(|_| Root { keep: vec![], weak: vec![] }))
 }
 
 fn pat(i: usize, salt: usize) -> u8 {
@@ -160,7 +164,36 @@ pub fn life_cycle(mut arena: A, v: Val, mode: u8, expect_drops: &[((usize, usize
     if dlog_len() != 0 {
         return Err("a destructor ran while the value was rooted".into());
     }
-    if mode == 0 {
+    if mode >= 3 {
+        // the value dies while a weak pointer to it is still reachable: the value-less shell stays allocated (whatever the
+        // library does to the block in between, the allocator must see matching layouts), then (3) the weak pointer goes
+        // and a later cycle releases the shell, or (4) the arena is dropped with the shell still there
+        arena.mutate_root(|_, r| {
+            let ws: Vec<_> = r.keep.iter().map(|g| Gc::downgrade(*g)).collect();
+            r.weak = ws;
+            r.keep.clear();
+        });
+        // (the arena is fully marked at this point: the cycle in progress keeps the value, the next one lets it die)
+        arena.finish_cycle();
+        arena.finish_cycle();
+        if arena.metrics().total_gc_count() != 1 {
+            return Err(format!("total_gc_count {} with one weakly held shell", arena.metrics().total_gc_count()));
+        }
+        if arena.mutate(|_, r| r.weak.iter().any(|w| !w.is_dropped())) {
+            return Err("weakly held value not destructed by a full cycle".into());
+        }
+        arena.finish_cycle();
+        if mode == 3 {
+            arena.mutate_root(|_, r| r.weak.clear());
+            arena.finish_cycle();
+            arena.finish_cycle();
+            if arena.metrics().total_gc_count() != 0 {
+                return Err(format!("total_gc_count {} after the shell's last weak pointer went", arena.metrics().total_gc_count()));
+            }
+        } else {
+            drop(arena);
+        }
+    } else if mode == 0 {
         arena.mutate_root(|_, r| r.keep.clear());
         arena.finish_cycle();
         arena.finish_cycle();
@@ -276,6 +309,28 @@ fn slice_case<E: Payload>(len: usize, mode: u8) -> Result<(), String> {
         })?;
         check_layout(&v)?;
         life_cycle(arena, v, mode, &[((E::L, E::A), len)])
+    })
+}
+
+/// a slice of zero-sized elements longer than u32::MAX: costs no memory, its length must survive every representation
+fn huge_zst_len_case(mode: u8) -> Result<(), String> {
+    in_window(|| {
+        let mut arena = new_arena();
+        const N: usize = (1usize << 32) + 5;
+        static UNITS: [(); N] = [(); N];
+        let v = arena.mutate_root(|mc, root| -> Result<Val, String> {
+            let g: GcSlice<()> = talloc::subject(|| GcSlice::new_slice(mc, &UNITS[..]));
+            root.keep.push(Gc::erase(g));
+            let addr = Gc::as_ptr(g) as *const () as usize;
+            let thin = Gc::as_thin(g);
+            let fat = Gc::as_fat(thin);
+            if g.len() != N || thin.len() != N || fat.len() != N {
+                return Err(format!("a slice of {N} zero-sized elements reads length {} (thin {}, fat again {})", g.len(), thin.len(), fat.len()));
+            }
+            Ok(Val { addr, size: 0, align: 1, id: 1 })
+        })?;
+        check_layout(&v)?;
+        life_cycle(arena, v, mode, &[])
     })
 }
 
@@ -552,8 +607,18 @@ pub fn cases(thorough: bool) -> Vec<Case> {
     let modes: &[u8] = &[0, 1, 2];
     macro_rules! sized_l {
         ($a:ident, $($l:literal),*) => {$(
-            for m in modes { let m = *m; v.push((format!("sized/{}/{}/mode{}", stringify!($a), $l, m), Box::new(move || sized_case::<$a<$l>>(m)))); }
+            for m in [0u8, 1, 2, 3, 4] { v.push((format!("sized/{}/{}/mode{}", stringify!($a), $l, m), Box::new(move || sized_case::<$a<$l>>(m)))); }
         )*};
+    }
+    // large values (a size-keyed cache of big freed blocks would hand an over-aligned value a word-aligned block)
+    macro_rules! big {
+        ($($t:ty),*) => {$(
+            for m in [0u8, 1, 3] { v.push((format!("sized_big/{}/mode{}", stringify!($t), m), Box::new(move || sized_case::<$t>(m)))); }
+        )*};
+    }
+    big!(A1<65536>, A8<70000>, A4096<65536>, A1<262144>, A4096<262144>, A64<65600>);
+    for m in [0u8, 1] {
+        v.push((format!("huge_zst_len/mode{m}"), Box::new(move || huge_zst_len_case(m))));
     }
     for_aligns!(sized_l, 0, 1, 2, 3, 4, 7, 8, 9, 15, 16, 17, 24, 31, 32, 33, 64, 100);
     let lens: &[usize] = if thorough { &[0, 1, 2, 3, 5, 8, 17] } else { &[0, 1, 2, 3, 5, 8] };
@@ -663,7 +728,7 @@ pub fn run(thorough: bool, only: Option<&str>) -> GridOut {
     GridOut {
         evaluations: n,
         nontrivial,
-        rule: "full grid: sized payloads repr(align(A)) [u8; L] for L in {0,1,2,3,4,7,8,9,15,16,17,24,31,32,33,64,100} x A in {1,2,4,8,16,32,64,128,1024,4096}; slices / header+slice over 10 element and header layouts (incl. zero-sized and over-aligned) x lengths; str lengths; 6 per-value metadata types (incl. over-aligned) x 5 payload layouts with per-type metadata; a user-defined pointer metadata for an unsized value (u32 rows of width 0 / 1 / 3 / 40 / 1000 taken from per-type metadata, no per-value metadata, two thin representations; completed and abandoned); each x reclamation mode (collected, arena dropped asleep, arena dropped mid-sweep). Non-trivial = cases with a non-zero-sized value".into(),
+        rule: "full grid: sized payloads repr(align(A)) [u8; L] for L in {0,1,2,3,4,7,8,9,15,16,17,24,31,32,33,64,100} x A in {1,2,4,8,16,32,64,128,1024,4096}; slices / header+slice over 10 element and header layouts (incl. zero-sized and over-aligned) x lengths; str lengths; 6 per-value metadata types (incl. over-aligned) x 5 payload layouts with per-type metadata; a user-defined pointer metadata for an unsized value (u32 rows of width 0 / 1 / 3 / 40 / 1000 taken from per-type metadata, no per-value metadata, two thin representations; completed and abandoned); each x reclamation mode (collected, arena dropped asleep, arena dropped mid-sweep; sized values also: died while weakly held, shell released by a later cycle / by arena drop); values of 64 KiB .. 256 KiB incl. over-aligned ones; a slice of 2^32 + 5 zero-sized elements. Non-trivial = cases with a non-zero-sized value".into(),
         samples: names.iter().step_by((names.len() / 6).max(1)).take(6).map(|s| J::Str(s.clone())).collect(),
         violations: viol.iter().map(|(c, e)| J::obj().with("case", c.as_str()).with("message", e.as_str())).collect(),
         extra: J::obj().with("exhaustive", only.is_none()),
